@@ -27,9 +27,11 @@ Record cop := mkOp {
   o_chan : bool;         (* a sender of the item channel is still alive *)
   o_rx : bool;           (* the stream still holds its receiver *)
   o_got : list resp;     (* items handed to the caller *)
-  o_res : option resp }. (* stored SearchResultDone *)
+  o_res : option resp;   (* stored SearchResultDone *)
+  o_tmo : option Z;      (* the handle's timeout as a duration: a search stream applies it to every next() call separately *)
+  o_call : option Z }.   (* start time of the next() call now in progress, if one is pending *)
 #[global] Instance eta_cop : Settable _ :=
-  settable! mkOp <o_mid; o_kind; o_deadline; o_status; o_reply; o_items; o_taken; o_chan; o_rx; o_got; o_res>.
+  settable! mkOp <o_mid; o_kind; o_deadline; o_status; o_reply; o_items; o_taken; o_chan; o_rx; o_got; o_res; o_tmo; o_call>.
 
 Record fixes := mkFx { fix7 : bool; fix8 : bool; fix9 : bool; fix15 : bool; fix16 : bool }.
 Definition as_is := mkFx false false false false false.
@@ -92,7 +94,7 @@ Definition step (s : st) (e : ev) : st :=
     match next_msgid (last s) (inuse s) with
     | Found mid =>
       let o := mkOp mid k (option_map (Z.add (now s)) tmo) CWait OsEmpty [] 0
-                    (match k with KSearch _ => true | _ => false end) (match k with KSearch _ => true | _ => false end) [] None in
+                    (match k with KSearch _ => true | _ => false end) (match k with KSearch _ => true | _ => false end) [] None tmo None in
       let s1 := s <| last := mid |> <| inuse ::= cons mid |> in
       if is_running s then s1 <| ops ::= fun l => l ++ [o] |> <| opq ::= fun q => q ++ [length (ops s)] |>
       else s1 <| ops ::= fun l => l ++ [o <| o_status := CErr EOpSend |> <| o_reply := OsClosed |> <| o_rx := false |> <| o_chan := false |>] |>
@@ -176,21 +178,23 @@ Definition step (s : st) (e : ev) : st :=
       match o_status c with
       | SActive =>
         if negb (o_rx c) then updop o (fun c => c <| o_status := SPanicked |>) s     (* rx.as_mut().unwrap() on None *)
-        else match nth_error (o_items c) (o_taken c) with
+        else
+        let t0 := match o_call c with Some t => t | None => now s end in      (* a pending call keeps its start time; otherwise a new call starts now *)
+        match nth_error (o_items c) (o_taken c) with
         | Some r =>
             match r_kind r with
-            | RDone => updop o (fun c => c <| o_taken ::= S |> <| o_res := Some r |> <| o_rx := false |>
+            | RDone => updop o (fun c => c <| o_taken ::= S |> <| o_res := Some r |> <| o_rx := false |> <| o_call := None |>
                                             <| o_status := match o_kind c with KSearch ad => if ad || fix7 (fx s) then SDone else SActive | _ => SActive end |>) s
-            | _ => updop o (fun c => c <| o_taken ::= S |> <| o_got ::= fun l => l ++ [r] |>) s
+            | _ => updop o (fun c => c <| o_taken ::= S |> <| o_got ::= fun l => l ++ [r] |> <| o_call := None |>) s
             end
         | None =>
-            if negb (o_chan c) then updop o (fun c => c <| o_status := SError |> <| o_rx := false |>) s   (* EndOfStream *)
-            else match o_deadline c with
-                 | Some d => if d <=? now s then
-                               let s1 := updop o (fun c => c <| o_status := SError |> <| o_rx := false |>) s in
+            if negb (o_chan c) then updop o (fun c => c <| o_status := SError |> <| o_rx := false |> <| o_call := None |>) s   (* EndOfStream *)
+            else match o_tmo c with
+                 | Some d => if t0 + d <=? now s then
+                               let s1 := updop o (fun c => c <| o_status := SError |> <| o_rx := false |> <| o_call := None |>) s in
                                if is_running s then s1 <| scrubq ::= fun q => q ++ [o_mid c] |> else s1
-                             else s
-                 | None => s end
+                             else updop o (fun c => c <| o_call := Some t0 |>) s
+                 | None => updop o (fun c => c <| o_call := Some t0 |>) s end
         end
       | _ => s end end
   | StreamFinish o =>
